@@ -281,6 +281,17 @@ func MuxValue(c *dom.Ctx, p bdd.Node, a, b Value) Value {
 			return &Map{Sym: x.Sym, Nil: c.M.Ite(p, x.Nil, y.Nil)}
 		}
 	case *Slice:
+		// a nil slice merged with a real one: the real one's identity, with length 0
+		// (and nil-ness) on the nil side - indexing it fails the bounds check there
+		if y, ok := b.(*Slice); ok && x.Rope == nil && y.Rope == nil && len(x.Len) == len(y.Len) {
+			isNilS := func(s *Slice) bool { return s.Nil == bdd.True && s.Sym == "" && s.Root == "" }
+			switch {
+			case isNilS(x) && !isNilS(y) && y.LoV == nil:
+				return &Slice{Sym: y.Sym, Root: y.Root, Path: y.Path, Lo: y.Lo, Nil: c.M.Ite(p, bdd.True, y.Nil), Len: c.Mux(p, c.Const(len(y.Len), 0), y.Len)}
+			case isNilS(y) && !isNilS(x) && x.LoV == nil:
+				return &Slice{Sym: x.Sym, Root: x.Root, Path: x.Path, Lo: x.Lo, Nil: c.M.Ite(p, x.Nil, bdd.True), Len: c.Mux(p, x.Len, c.Const(len(x.Len), 0))}
+			}
+		}
 		if y, ok := b.(*Slice); ok && x.Rope == nil && y.Rope == nil && x.Sym == y.Sym && x.Root == y.Root && x.Path == y.Path && x.Lo == y.Lo && x.LoV == nil && y.LoV == nil && x.Nil == y.Nil && len(x.Len) == len(y.Len) {
 			return &Slice{Sym: x.Sym, Root: x.Root, Path: x.Path, Lo: x.Lo, Nil: x.Nil, Len: c.Mux(p, x.Len, y.Len)}
 		}
